@@ -180,6 +180,20 @@ Theorem c01_rt_stream_m17mod :
 Proof. exact rt_stream_m17mod. Qed.
 Print Assumptions c01_rt_stream_m17mod.
 
+(** one iteration of m17-mod's BERT loop, for every generator (state type St, generate() = gen): the frame it
+    emits decodes to the packed bytes of the next 197 generated bits *)
+Theorem c01_rt_bert_m17mod :
+  forall (uninit : list bool) (St : Type) (gen : St -> St * bool) (p : St) (s : fd_state) (m : list Z) (r : bool),
+  fd_hid_ok s -> length m = 368%nat -> Forall (fun x => 1 <= x <= 7) m ->
+  exists f : list bool,
+    snd (bert_iteration uninit St gen p) = [OutFrame SpecM17.sync_bert f] /\
+    length (snd (LemmasMod_D.gen_bits St gen 197 p)) = 197%nat /\
+    exists c : Z, (Forall (fun x => x = 7) m -> c = 0) /\
+      fd_observe (fd_step s SBert (soft m f) r) =
+        (MBert, ROk, Some c, [mkcb FBert (to_bytes (snd (LemmasMod_D.gen_bits St gen 197 p))) c]).
+Proof. exact rt_bert_m17mod. Qed.
+Print Assumptions c01_rt_bert_m17mod.
+
 (** * Non-vacuity: the hypotheses are satisfiable; concrete frames decoded by evaluating the model
     LSF of source "AB1CD" to broadcast, CAN 3 (CRC-valid); magnitudes 1,2,..,7,1,2,.. and all 7;
     decoder states: freshly constructed (fd_init) or fd_init put into the mode named *)
